@@ -315,6 +315,11 @@ func init() {
 				}
 				return simpleCase(c, drv.RunReloadBinaryCase(c.Seed+int64(c.Idx), bin, c.TmpDir), 1)
 			}
+			if c.Idx%40 == 19 {
+				// real task runner: a script line that names a program the operating system refuses to start (file busy, not
+				// executable, no interpreter, a directory) - what the line did before ran once
+				return simpleCase(c, drv.RunExecErrorCase(int64(c.Idx/40), c.TmpDir), 10)
+			}
 			if c.Idx%40 == 39 {
 				// the same claims with the REAL task runner and real exit statuses (the monitored runner's conventions are
 				// the harness's own): failing commands, dependents, allow_failure
@@ -372,6 +377,10 @@ func init() {
 			if c.Idx%40 == 19 {
 				// fail-fast also holds while a graceful shutdown is waiting for the job
 				return simpleCase(c, drv.RunShutdownDirectedCase(c.Seed, 0), 50)
+			}
+			if c.Idx%40 == 29 {
+				// real task runner: a program that cannot be started fails its task like a non-zero exit status does
+				return simpleCase(c, drv.RunExecErrorCase(int64(c.Idx/40), c.TmpDir), 10)
 			}
 			if c.Idx%40 == 39 {
 				// real task runner, real exit statuses
